@@ -132,8 +132,8 @@ class VisitBase(FnSpec):
         return [(st, V("ref", P.GETITEM(o.t, ex.to_ref(st, k))))]
 
     def py_compare(self, ex, st, op, a, b):
-        if isinstance(op, (ast.Is, ast.IsNot)) or a.kind != "ref" or b.kind != "ref":
-            return None  # identity is decided by the library itself
+        if isinstance(op, (ast.Is, ast.IsNot)) or a.kind != "ref" or b.kind != "ref" or b.py is not None or a.py is not None:
+            return None  # identity, and operations on the library's own containers, are the library's business
         c = clsref("ast." + type(op).__name__)
         self._did(ex, st, "compare", P.DID_CMP(c, a.t, b.t))
         return [(st, V("ref", P.CMP(c, a.t, b.t)))]
@@ -172,3 +172,212 @@ RC_SPECS = [
     unit("visit_Slice", "Slice", P.sem_Slice),
     unit("visit_IfExp", "IfExp", P.sem_IfExp),
 ]
+
+
+# ---- names -----------------------------------------------------------------------------------------------------------
+BUILTINS = objref("module:builtins")
+REG.globals["builtins"] = V("ref", BUILTINS, "builtins_module")
+_prev_hasattr = REG.hasattr_hook
+
+
+def _hasattr_hook(ex, st, o, a):
+    if o.kind == "ref" and o.py == "builtins_module":
+        return [(st, vbool(P.HAS_BUILTIN(S(a) if isinstance(a, str) else a)))]
+    return _prev_hasattr(ex, st, o, a)
+
+
+REG.hasattr_hook = _hasattr_hook
+
+
+class VisitName(VisitBase):
+    addr = "_recompute.py::Visitor.visit_Name"
+    node_class = "Name"
+
+    def setup(self, ex, st, a):
+        self.a, self.H = a, st.copy()
+        st.assume(*P.sem_Name(st, a["node"].t, attr(st, a["self"].t, "_name_to_value")))
+        ex.registry.assumptions.add("trusted Python semantics of ast.Name (specs/pysem.py)")
+
+    def py_getattr(self, ex, st, o, name_term):
+        if o.py == "builtins_module":
+            return [(st, V("ref", P.BUILTIN(name_term)))]
+        return VisitBase.py_getattr(self, ex, st, o, name_term)
+
+
+class VisitNamedExpr(VisitBase):
+    addr = "_recompute.py::Visitor.visit_NamedExpr"
+    node_class = "NamedExpr"
+    sem = staticmethod(P.sem_NamedExprFull)
+
+    def ensures_ret(self, c, v):
+        st, a = c.post, c.a
+        n = a["node"].t
+        ntv = attr(c.pre, a["self"].t, "_name_to_value")
+        tid = attr(c.pre, attr(c.pre, n, "target"), "id")
+        return VisitBase.ensures_ret(self, c, v) + [("binds_the_target_for_what_follows", z3.And(z3.Select(dom(st, ntv), tid), z3.Select(val(st, ntv), tid) == VAL(n)))]
+
+
+# ---- boolean operations and comparison chains (short-circuit order) -----------------------------------------------------
+class _ChainLoop:
+    """Shared shape of the two loops: operands are visited while Python evaluated them; `carry` is what the loop has
+    established about the value so far."""
+    var_kinds = {"saw_placeholder": "bool"}
+    trace = False
+
+    def __init__(self, spec):
+        self.spec = spec
+
+    def modifies(self, c):
+        sp = self.spec
+        rv, ntv = sp.rv(sp.H, sp.a), attr(sp.H, sp.a["self"].t, "_name_to_value")
+        return [(f, r) for r in (rv, ntv) for f in ("ddom", "dval", "dord")]
+
+    def common(self, c):
+        sp, st = self.spec, c.st
+        rv = sp.rv(sp.H, sp.a)
+        k = z3.Int("k!cl")
+        return [z3.Not(st.vars["saw_placeholder"].t), rvok(st, rv),
+                qforall([k], z3.Implies(z3.Select(dom(sp.H, rv), k), z3.And(z3.Select(dom(st, rv), k), z3.Select(val(st, rv), k) == z3.Select(val(sp.H, rv), k))),
+                        patterns=[z3.Select(dom(sp.H, rv), k)])]
+
+
+class VisitBoolOp(VisitBase):
+    addr = "_recompute.py::Visitor.visit_BoolOp"
+    node_class = "BoolOp"
+    sem = staticmethod(lambda H, n: P.sem_BoolOp(H, n) + P.truth_of_bools())
+
+    class Loop(_ChainLoop):
+        def inv(self, c):
+            sp, st = self.spec, c.st
+            vs = lst(sp.H, attr(sp.H, sp.a["node"].t, "values"))
+            res = c.ex.to_ref(st, st.vars["result"])
+            return self.common(c) + [z3.Implies(c.i < c.n, EV(vs[c.i])), z3.Implies(c.i >= 1, z3.And(res == VAL(vs[c.i - 1]), EV(vs[c.i - 1])))]
+
+    def __init__(self):
+        VisitBase.__init__(self)
+        self.loops = {"enumerate(node.values)": self.Loop(self)}
+
+
+class VisitCompare(VisitBase):
+    addr = "_recompute.py::Visitor.visit_Compare"
+    node_class = "Compare"
+    sem = staticmethod(lambda H, n: P.sem_Compare(H, n) + P.truth_of_bools() + P.identity_comparisons())
+
+    class Loop(_ChainLoop):
+        def inv(self, c):
+            sp, st = self.spec, c.st
+            n = sp.a["node"].t
+            cs = lst(sp.H, attr(sp.H, n, "comparators"))
+            ops = lst(sp.H, attr(sp.H, n, "ops"))
+            left0 = attr(sp.H, n, "left")
+            operand = lambda x: z3.If(x == 0, left0, cs[x - 1])
+            link = lambda x: P.CMP(P.OPCLS(ops[x]), VAL(operand(x)), VAL(cs[x]))
+            res = c.ex.to_ref(st, st.vars["result"])
+            left = c.ex.to_ref(st, st.vars["left"])
+            return self.common(c) + [left == VAL(operand(c.i)), z3.Implies(c.i < c.n, EV(cs[c.i])),
+                                     z3.Implies(c.i >= 1, z3.And(res == link(c.i - 1), EV(cs[c.i - 1])))]
+
+    def __init__(self):
+        VisitBase.__init__(self)
+        self.loops = {"enumerate(zip(node.comparators, node.ops))": self.Loop(self)}
+
+
+RC_SPECS += [VisitName(), VisitNamedExpr(), VisitBoolOp(), VisitCompare()]
+
+
+# ---- displays and f-strings ----------------------------------------------------------------------------------------------
+class AbsSeq(str):
+    """Type hint of a V that denotes an abstract Python sequence value; carries the Seq term of its elements."""
+
+    def __new__(cls, seq):
+        o = str.__new__(cls, "absseq")
+        o.seq = seq
+        return o
+
+
+_prev_comp_source = REG.comp_source_hook
+_prev_contains2 = REG.contains_hook
+
+
+def _comp_source(ex, st, target, src, j):
+    if src.kind == "ref" and isinstance(src.py, AbsSeq):
+        return {target.id: V("ref", src.py.seq[j])}, src.py.seq
+    return _prev_comp_source(ex, st, target, src, j)
+
+
+def _contains2(ex, st, container, item):
+    if isinstance(container.py, AbsSeq):
+        return z3.Contains(container.py.seq, z3.Unit(ex.to_ref(st, item)))
+    return _prev_contains2(ex, st, container, item)
+
+
+REG.comp_source_hook = _comp_source
+REG.contains_hook = _contains2
+REG.globals["str"] = V("ref", clsref("str"), "class")
+REG.globals["Placeholder"] = V("ref", clsref("Placeholder"), "class")
+
+
+class VisitDisplay(VisitBase):
+    """visit_List / visit_Tuple / visit_Set / visit_JoinedStr: every element is visited (all are evaluated), the value is the
+    abstract container of the element values."""
+    field = "elts"
+    mk = None
+
+    def __init__(self):
+        VisitBase.__init__(self)
+        self.comps = {"[self.visit(node=elt) for elt in node.elts]": self.map_comp, "[self.visit(value_node) for value_node in node.values]": self.map_comp}
+        self.calls = {"tuple": self.map_call(P.MKTUPLE), "set": self.map_call(P.MKSET)}
+        self.methods = dict(self.methods, join=self.join)
+
+    def visit_map(self, ex, st, l, wrap):
+        es = lst(st, l)
+        j = z3.Int("j!vm")
+        k = ex.ordinal("visitmap")
+        ex.oblige(st, "visit_all#%d.only_subexpressions_python_evaluated" % k, qforall([j], z3.Implies(z3.And(j >= 0, j < z3.Length(es)), EV(es[j]))),
+                  kind="C07", meta={"props": ["C07", "C06"]})
+        a = self.a
+        rv, ntv = self.rv(st, a), attr(st, a["self"].t, "_name_to_value")
+        old_dom, old_val = dom(st, rv), val(st, rv)
+        for f in ("ddom", "dval", "dord"):
+            st.put(f, rv, fresh("rv_" + f, field_sort(f).range()))
+            st.put(f, ntv, fresh("ntv_" + f, field_sort(f).range()))
+        kk = z3.Int("k!vm")
+        st.assume(qforall([kk], z3.Implies(z3.Select(old_dom, kk), z3.And(z3.Select(dom(st, rv), kk), z3.Select(val(st, rv), kk) == z3.Select(old_val, kk))),
+                          patterns=[z3.Select(old_dom, kk)]), rvok(st, rv))
+        seq = P.VS(l)
+        st.assume(qforall([j], z3.Implies(z3.And(j >= 0, j < z3.Length(seq)), seq[j] != PLACEHOLDER)),
+                  z3.Not(z3.Contains(seq, z3.Unit(PLACEHOLDER))))  # the same fact, as the membership test reads it
+        nc = fresh("ctr")
+        st.assume(nc >= st.ctr)
+        st.ctr = nc
+        return V("ref", wrap(seq), AbsSeq(seq))
+
+    def map_comp(self, ex, st, node):
+        out = []
+        for s, src in ex.eval(st, node.generators[0].iter):
+            out.append((s, src if isinstance(src, Raise) else self.visit_map(ex, s, src.t, P.MKLIST)))
+        return out
+
+    def map_call(self, wrap):
+        def h(ex, st, node, args, kwargs):
+            g = args[0].py.payload  # the generator expression node
+            out = []
+            for s, src in ex.eval(st, g.generators[0].iter):
+                out.append((s, src if isinstance(src, Raise) else self.visit_map(ex, s, src.t, wrap)))
+            return out
+        return h
+
+    def join(self, ex, st, node, recv, args, kwargs):
+        if args and isinstance(args[0].py, AbsSeq):
+            return [(st, V("ref", P.JOIN(args[0].py.seq)))]
+        return None
+
+
+def display(name, cls, mk, field="elts", sem=None):
+    ns = {"addr": "_recompute.py::Visitor." + name, "node_class": cls, "field": field,
+          "sem": staticmethod(sem or P.sem_display(cls, mk))}
+    return type("Spec_" + name, (VisitDisplay,), ns)()
+
+
+RC_SPECS += [display("visit_List", "List", P.MKLIST), display("visit_Tuple", "Tuple", P.MKTUPLE), display("visit_Set", "Set", P.MKSET),
+             display("visit_JoinedStr", "JoinedStr", None, field="values", sem=P.sem_JoinedStr)]
